@@ -110,7 +110,12 @@ def _check_pair(ctx, src, dst, spos, dpos, rng, tier, same_mesh):
                     dims = _lead_dims(lead) + [KIND_DIM[kind]]
                     inputs = {"source": src["name"], "destination": dst["name"], "data_dims": dims, "remap_to": remap_to,
                               "coord_type": coord, "source_counts": [counts[k] for k in KINDS]}
-                    gs, gd = grid_of(src), grid_of(dst)
+                    gs = grid_of(src)
+                    # a mesh remapped onto itself: the destination is the very grid object the data live on (the common call
+                    # uxda.remap.*(uxda.uxgrid, remap_to=...)); for the longer leading shapes an equal but separate grid
+                    gd = gs if (same_mesh and len(lead) < 2) else grid_of(dst)
+                    if gd is gs:
+                        inputs["destination"] = "the source grid object itself"
                     da = ux.UxDataArray(data.copy(), dims=dims, uxgrid=gs, name="v")
                     # ------------------------------------------------ nearest neighbour
                     ctx.cases += 1
